@@ -13,7 +13,10 @@ Inc == [k |-> "inc"]
 YLoc == [k |-> "yloc"]
 Loop(n, b) == [k |-> "loop", n |-> n, body |-> b]
 TryF(b, f) == [k |-> "tryf", body |-> b, fin |-> f]
-YF(b) == [k |-> "yf", b |-> b]
+YF(b) == [k |-> "yf", b |-> b, then |-> ""]
+YFRet(b) == [k |-> "yf", b |-> b, then |-> "ret"]          \* r = yield from T; log r; return r
+YFUnpack(b) == [k |-> "yf", b |-> b, then |-> "unpack"]    \* q, r = yield from T; log [q, r]
+RetV(val) == [k |-> "retv", val |-> val]
 
 Templates == <<
   [name |-> "plain",            ss |-> << L(1), Y(10), L(2), Y(11), L(3) >>],
@@ -29,7 +32,28 @@ Templates == <<
   [name |-> "locals_in_loop",   ss |-> << Loop(3, << Inc, YLoc >>), L(7) >>],
   [name |-> "return_in_try_yield_in_finally", ss |-> << Loop(2, << TryF(<< R(80), Ret(3) >>, << Y(81), L(10) >>) >>), L(11) >>],
   [name |-> "yf_nested",        ss |-> << YF(5), Y(90) >>],
-  [name |-> "yf_recv_loop",     ss |-> << YF(2), R(91) >>]
+  [name |-> "yf_recv_loop",     ss |-> << YF(2), R(91) >>],
+  \* 15..19: structured return values (a tuple of any shape is one value); 20..24 one hop, 25..29 two hops of
+  \* yield from handing the value on; 30..33 the value unpacked
+  [name |-> "ret_empty_tuple",  ss |-> << Y(100), RetV(TupleV(<<>>)) >>],
+  [name |-> "ret_1tuple",       ss |-> << Y(101), RetV(TupleV(<< IntV(7) >>)) >>],
+  [name |-> "ret_pair",         ss |-> << Y(102), RetV(TupleV(<< IntV(10), IntV(20) >>)) >>],
+  [name |-> "ret_nested_tuple", ss |-> << Y(103), RetV(TupleV(<< TupleV(<< IntV(1), IntV(2) >>), IntV(3) >>)) >>],
+  [name |-> "ret_list",         ss |-> << Y(104), RetV(ListV(<< IntV(10), IntV(20) >>)) >>],
+  [name |-> "yf1_empty_tuple",  ss |-> << YFRet(15) >>],
+  [name |-> "yf1_1tuple",       ss |-> << YFRet(16) >>],
+  [name |-> "yf1_pair",         ss |-> << YFRet(17) >>],
+  [name |-> "yf1_nested_tuple", ss |-> << YFRet(18) >>],
+  [name |-> "yf1_list",         ss |-> << YFRet(19) >>],
+  [name |-> "yf2_empty_tuple",  ss |-> << YFRet(20) >>],
+  [name |-> "yf2_1tuple",       ss |-> << YFRet(21) >>],
+  [name |-> "yf2_pair",         ss |-> << YFRet(22) >>],
+  [name |-> "yf2_nested_tuple", ss |-> << YFRet(23) >>],
+  [name |-> "yf2_list",         ss |-> << YFRet(24) >>],
+  [name |-> "unpack_pair",      ss |-> << YFUnpack(17), L(12) >>],
+  [name |-> "unpack_list",      ss |-> << YFUnpack(19), L(13) >>],
+  [name |-> "unpack_pair_after_hop", ss |-> << YFUnpack(22), L(14) >>],
+  [name |-> "unpack_nested_tuple", ss |-> << YFUnpack(18), L(15) >>]
 >>
 B == [i \in 1..Len(Templates) |-> Templates[i].ss]
 BNames == [i \in 1..Len(Templates) |-> Templates[i].name]
@@ -37,13 +61,17 @@ BNames == [i \in 1..Len(Templates) |-> Templates[i].name]
 \* number of templates in use (quick: 12, thorough: 14)
 CONSTANT NB
 AllTops == [1..NTop -> 1..NB]
+\* the templates about structured return values: each driven alone (the other instances are an idle "plain")
+ValueTemplates == 15..Len(Templates)
+ValueTops == { [g \in 1..NTop |-> IF g = 1 THEN i ELSE 1] : i \in ValueTemplates }
+TopsWithValues == AllTops \cup ValueTops
 
 SendQuick == {NoneV, StrV("a")}
 SendThorough == {NoneV, StrV("a"), StrV("b")}
 
 \* ---- transparency of yield from: each delegating template next to its in-place form ----
 RECURSIVE InlineSeq(_)
-InlineStmt(s) == IF s.k = "yf" THEN [k |-> "inl", body |-> InlineSeq(B[s.b])]
+InlineStmt(s) == IF s.k = "yf" THEN [k |-> "inl", body |-> InlineSeq(B[s.b]), then |-> s.then]
                  ELSE IF s.k = "loop" THEN [s EXCEPT !.body = InlineSeq(s.body)]
                  ELSE IF s.k = "tryf" THEN [s EXCEPT !.body = InlineSeq(s.body), !.fin = InlineSeq(s.fin)]
                  ELSE s
@@ -57,6 +85,10 @@ BWithInline == [i \in 1..(2 * Len(B)) |-> IF i <= Len(B) THEN B[i] ELSE InlineSe
 LockTops == { <<i, i + Len(B)>> : i \in Delegating }
 \* the design check: every template alone (instance 2 is an idle "plain"), and the lock-step pairs
 DesignTops == LockTops \cup { <<i, 1>> : i \in 1..Len(B) }
+\* quick: the delegating templates of the first 14, one representative of each way a structured value is handed on, and
+\* the first 14 templates alone
+QuickLockTops == { <<i, i + Len(B)>> : i \in (Delegating \cap 1..14) \cup {22, 28, 30, 31} }
+QuickDesignTops == QuickLockTops \cup { <<i, 1>> : i \in 1..14 }
 NoTops == {}
 
 \* the header record the harness renders the generator definitions from
